@@ -102,6 +102,7 @@ def strategy(tier: str):
             "ops": ops,
             "mode": st.sampled_from(("steps", "steps", "queue")),
             "listen_mode": st.sampled_from(("fresh", "persistent")),
+            "debug_log": st.sampled_from((False, False, True)),
         }
     )
 
